@@ -235,10 +235,12 @@ class Run:
                 flags = "-Zmiri-disable-isolation"
                 if i == 0 and not enabled.get("unaligned_items"):
                     flags += " -Zmiri-disable-alignment-check"
-                env = {"MIRIFLAGS": flags, "C36_SCRIPT": p, "C36_MIRI_NO_ITEMS": "0" if i == 0 else "1",
-                       "CARGO_TARGET_DIR": OUT + "/target-miri", "CARGO_NET_OFFLINE": "true"}
-                jobs.append((p, ex.submit(sh, ["cargo", "+nightly", "miri", "run", "--offline", "--manifest-path",
-                                               CAPI + "/amc_miri/Cargo.toml", "-q"], env, 1500)))
+                # script and mode go in as arguments: cargo-miri replays the *build-time* environment
+                env = {"MIRIFLAGS": flags, "CARGO_TARGET_DIR": OUT + "/target-miri", "CARGO_NET_OFFLINE": "true"}
+                cmd = ["cargo", "+nightly", "miri", "run", "--offline", "--manifest-path", CAPI + "/amc_miri/Cargo.toml", "-q", "--", p]
+                if i > 0:
+                    cmd.append("no-items")
+                jobs.append((p, ex.submit(sh, cmd, env, 1500)))
             for p, j in jobs:
                 rc, out, err = j.result()
                 self.counters["miri_runs"] += 1
@@ -262,7 +264,7 @@ class Run:
     def main(self):
         quick = self.tier == "quick"
         enabled = self.probes()
-        n, lo, hi, nmem = (48, 150, 300, 24) if quick else (640, 150, 900, 200)
+        n, lo, hi, nmem = (48, 150, 300, 24) if quick else (560, 150, 900, 180)
         paths = self.generate(n, lo, hi, enabled)
         with cf.ThreadPoolExecutor(max_workers=16) as ex:
             futs = [ex.submit(self.run_script, p, True, i < nmem) for i, p in enumerate(paths)]
